@@ -250,6 +250,18 @@ pub fn case_timeout_secs() -> u64 {
 /// Runs `test` on `cases` generated values, split over `ctx.threads` shards.
 /// `test(value, stats)` must be deterministic. Stats are only recorded until a
 /// shard's first failure (the closure is re-run during shrinking).
+/// Child processes (C07/C14 workers, compiled clients, libFuzzer jobs) must not outlive a check that is killed from
+/// outside (e.g. by `timeout`): with a hang in the code under test an orphan would spin forever.
+pub fn die_with_parent(cmd: &mut std::process::Command) {
+    use std::os::unix::process::CommandExt;
+    unsafe {
+        cmd.pre_exec(|| {
+            libc::prctl(libc::PR_SET_PDEATHSIG, libc::SIGKILL);
+            Ok(())
+        });
+    }
+}
+
 pub fn run_sharded<S, F, MK>(ctx: &Ctx, label: &str, cases: u64, mk_strategy: MK, test: F) -> RunOutcome
 where
     S: Strategy,
